@@ -177,7 +177,7 @@ def execute(sc):
     forced_later = any(w == 'done' and s_ >= 1 for _, s_, _, w in sc['faults'].get('force', []))
     _br = next((p for n_, p in cfg.get('cc', []) if n_.startswith('BasicRestarting')), {})
     _ad = next((p for n_, p in cfg.get('cc', []) if n_ == 'Adaptivity'), None)
-    _uneven = cfg['level'].get('restol', -1) >= 0 or bool(sc['faults'].get('verdicts')) or bool(_ad and _ad.get('avoid_restarts'))
+    _uneven = cfg['level'].get('restol', -1) >= 0 or bool(sc['faults'].get('verdicts')) or bool(_ad and _ad.get('avoid_restarts')) or any(w == 'done' for _, _, _, w in sc['faults'].get('force', []))
     for clause, site, detail, ident in world.violations:
         if T > 1 and _br.get('restart_from_first_step') and _uneven and clause in ('collective_mismatch', 'deadlock', 'collective_incomplete', 'unmatched_send', 'unmatched_recv', 'incomplete_recv'):
             V('collectives_of_restart_from_first_step', 'BasicRestartingMPI.determine_restart', detail, root='collectives_inside_iteration_need_equal_iteration_counts')
@@ -212,7 +212,7 @@ def execute(sc):
     # ---- two more known root causes, recognised from the configuration (everything else stays reportable)
     br_p = next((p for n_, p in cfg.get('cc', []) if n_.startswith('BasicRestarting')), {})
     ad_p = next((p for n_, p in cfg.get('cc', []) if n_ == 'Adaptivity'), None)
-    uneven = cfg['level'].get('restol', -1) >= 0 or bool(sc['faults'].get('verdicts')) or bool(ad_p and ad_p.get('avoid_restarts'))
+    uneven = cfg['level'].get('restol', -1) >= 0 or bool(sc['faults'].get('verdicts')) or bool(ad_p and ad_p.get('avoid_restarts')) or any(w == 'done' for _, _, _, w in sc['faults'].get('force', []))
     rffs_uneven = T > 1 and br_p.get('restart_from_first_step') and uneven
     lin_avoid = T > 1 and ad_p is not None and ad_p.get('avoid_restarts') and ad_p.get('embedded_error_flavor') == 'linearized'
     if rffs_uneven or lin_avoid:
@@ -263,6 +263,13 @@ def execute(sc):
         rel_round = 16 * np.finfo(float).eps * t_scale * (T + 1) / (min(dts) if dts else 1.0)
         tol_dt = max(1e-9, rel_round)
         tol_val = max(1e-8, 1e2 * rel_round)
+        # the linearized estimate is a difference of accumulated increments (cancellation down to the size of e_tol); the MPI flavour adds
+        # the contributions of the ranks in another order than the serial list sum, so the estimate - and through (tol/err)^(1/order) the
+        # step sizes, times and values - agree only to ~eps/e_est relative, not to eps
+        lin_cfg = T > 1 and ad_p is not None and ad_p.get('embedded_error_flavor') == 'linearized'
+        span = abs(cfg['run']['Tend'] - cfg['run']['t0'])
+        if lin_cfg:
+            tol_dt, tol_val = max(tol_dt, 1e-6), max(tol_val, 1e-5)
         exact = True  # as long as every start time and step size so far agreed bitwise, values must agree bitwise as well
         first_sliver_block = min([k[0] for k in (set(mpi_att) ^ set(ser_att))], default=None) if sliver else None
         for key in sorted(set(mpi_att) & set(ser_att)):
@@ -274,7 +281,7 @@ def execute(sc):
                     # the two flavours compute start times differently (tend+sum(dt) vs t+dt); from here on step sizes capped by
                     # the reach-Tend rule and values of non-autonomous problems may differ by rounding
                     exact = False
-                tol_t = 4 * np.finfo(float).eps * max(abs(sa['t']), 1.0) * (T + 1) * 8
+                tol_t = 4 * np.finfo(float).eps * max(abs(sa['t']), 1.0) * (T + 1) * 8 + (1e-6 * span if lin_cfg else 0.0)
                 if not _close(ma['t'], sa['t'], tol_t):
                     V('step_time_differs', 'controller_MPI.run', f'block {key[0]} slot {key[1]}: start time {ma["t"]!r} vs serial {sa["t"]!r}')
                 if abs(ma['dt'] - sa['dt']) > tol_dt * abs(sa['dt']):
